@@ -225,9 +225,11 @@ def monitor(case, out):
                 # exceeded the limit (C07_lru_order: the evicted entries are a prefix; the loop stops as soon
                 # as stored + reserved + needed fits).  Sizes come from the cache's own index, so this holds
                 # with externally deleted files too.
-                ev = [e for e in prev[5][:len(p2) - len(n2)] if e[0] != k] if n2 == p2[len(p2) - len(n2):] else []
-                ev = [e for e in prev[5] if e[0] != k][:len(p2) - len(n2)]
-                if ev and n2 == p2[len(p2) - len(n2):]:
+                kk = None if t == b'prepare_add' else k      # prepare_add does not forget its own key first
+                pp = [e for e in prev[5] if e[0] != kk]
+                nn = [x for x in keys if x != kk]
+                ev = pp[:len(pp) - len(nn)] if nn == [e[0] for e in pp][len(pp) - len(nn):] else []
+                if ev:
                     if t in (b'get', b'remove', b'contains', b'write_tmp', b'abandon', b'ext_delete'):
                         vs.append('op %d %s: entries %s evicted by an operation that needs no space' % (i, op, [e[0] for e in ev]))
                     elif not (t == b'commit' and k in pidx) and size + ev[-1][1] <= cap:
